@@ -14,7 +14,7 @@ CLAIMED = {
 CLAIMED.update({
  'C07': dict(
    technique='Lean 4 proof: arithmetic of the 64-bit padding formula (BitVec link + minimality), power-of-two units and block alignment by mutual structural induction; correspondence on real schema rows',
-   text='Kernel-checked: pad_is_bit_formula (the model formula is the crate\'s wrapping_neg & (u-1) on 64-bit words), pad_spec (for every offset and power-of-two unit: aligned, smaller than the unit, minimal), unit_pow2 / unit_ge_field (units are powers of two, >= native alignment and field units), blocks_aligned (every zero-copy block of every serialized value starts at a multiple of its unit), zero_block_shape_* (exactly pad zero bytes precede the data), count_exact_full, count_exact_eps. The implementation is compared with the model on layouts (size_of/align_of/max_size_of), on the schema rows recorded by the real serialize_with_schema (block offsets, padding rows) and on byte counts.',
+   text='Kernel-checked: pad_is_bit_formula (the model formula is the crate\'s wrapping_neg & (u-1) on 64-bit words), pad_spec (for every offset and power-of-two unit: aligned, smaller than the unit, minimal), unit_pow2 / unit_ge_field (units are powers of two, >= native alignment and field units), blocks_aligned (every zero-copy block of every serialized value starts at a multiple of its unit), zero_block_shape_* (exactly pad zero bytes precede the data), count_exact_full, count_exact_eps. The implementation is compared with the model on layouts (size_of/align_of/max_size_of), on the schema rows recorded by the real serialize_with_schema (block offsets, padding rows) and on byte counts. Probe c07_packed_units (real code only: the model has no packed layout): packed zero-copy structures, whose unit exceeds their native alignment, alone and inside zero-copy enums, structures, arrays and tuples — unit relations, block offsets after strings of every length 0..64, byte counts, both deserializers.',
    note='unit theorems exclude ranges over index types whose size is not a power of two (Ty.wf): there the property is false of the code (known finding KF-C07-1, witness RangeTo<[u8; 3]>, unit 3, replayed on every run); rustc layout is modelled and validated per run.',
    design='5/C07'),
  'C10': dict(
@@ -24,7 +24,7 @@ CLAIMED.update({
    design='5/C10'),
  'C15': dict(
    technique='Lean 4 proof: decision logic of the tag tables for all byte values / all 64-bit tag words, both readers; tag positions located through the real schema in the correspondence',
-   text='Kernel-checked: tag_roundtrip (every variant of every sum type is read back), *_foreign_full / *_foreign_eps (every byte value that no variant writes is rejected with InvalidTag carrying exactly that value, for Option, Bound, ControlFlow, in both readers), enum_foreign_full/eps (every 64-bit tag word >= number of variants, any derived enum), written_tags / enum_written_tag (written tags are never foreign). The run sets every tag byte/word of real streams (positions taken from the real serialize_with_schema) to foreign values and compares with the model and the oracle.',
+   text='Kernel-checked: tag_roundtrip (every variant of every sum type is read back), *_foreign_full / *_foreign_eps (every byte value that no variant writes is rejected with InvalidTag carrying exactly that value, for Option, Bound, ControlFlow, in both readers), enum_foreign_full/eps (every 64-bit tag word >= number of variants, any derived enum), written_tags / enum_written_tag (written tags are never foreign). The run sets every tag byte/word of real streams (positions taken from the real serialize_with_schema) to foreign values and compares with the model and the oracle. Probe c15_zero_enum_discriminants (real code only: the model numbers the variants of a zero-copy enum by position): zero-copy enums with negative, sparse, descending and extreme explicit discriminants and with fields, every variant at top level, as a field, in a vector and in an option, both modes; deep-copy enums with repr(u8 / u16 / i8) and enums with 260 variants are in the universe.',
    note='only foreign tag values are injected in the correspondence (switching to another valid variant re-interprets following bytes as lengths and can abort the process in the allocator).',
    design='5/C15'),
 })
@@ -45,7 +45,7 @@ CLAIMED.update({
 CLAIMED.update({
  'C11': dict(
    technique='Lean 4 proof: prefix-failure theorem by mutual structural induction for the three readers (generic reader: ReadError; slice full reader and ε-copy reader: error or panic, never a value), header included; tied by cutting real streams at every byte',
-   text='Kernel-checked: prefix_full (every strict prefix of every serialized stream makes deserialize_full return ReadError), prefix_eps (deserialize_eps of the prefix at any base address is an error or a bounds-check panic, never a value), checkHeader_prefix, body-level versions at any stream position, file_prefix_load_full / file_prefix_mmap (the file-backed entry points that do not zero-extend: the region of mmap is the file itself). The run truncates real streams at every cut point and compares both modes with the model and the oracle, and stores files cut at sampled points and loads them through load_full, mmap, load_mem, load_mmap (error kind compared with the model; load_full must give a read error, mmap must not return a structure).',
+   text='Kernel-checked: prefix_full (every strict prefix of every serialized stream makes deserialize_full return ReadError), prefix_eps (deserialize_eps of the prefix at any base address is an error or a bounds-check panic, never a value), checkHeader_prefix, body-level versions at any stream position, file_prefix_load_full / file_prefix_mmap (the file-backed entry points that do not zero-extend: the region of mmap is the file itself). The run truncates real streams at every cut point and compares both modes with the model and the oracle, and stores files cut at sampled points and loads them through load_full, mmap, load_mem, load_mmap (error kind compared with the model; load_full must give a read error, mmap must not return a structure). Op bigfile: payloads of exactly one and two blocks of 16 MiB cut in the header, in the first and in the last block, through deserialize_full, load_full, mmap and deserialize_eps.',
    note='"does not read outside the prefix" holds in the model by construction (readers only see the prefix); at run time it is exercised on exact-length heap copies and on files of exactly the prefix length, not proved. The two zero-extending loaders are outside the clause: their outcome on truncated files is compared with the model only.',
    design='5/C11'),
 })
@@ -69,7 +69,7 @@ CLAIMED.update({
 CLAIMED.update({
  'C13': dict(
    technique='Lean 4 proof: invariants over every sink obeying the write_all contract, every fault schedule and every chunking (prefix, result, exact count), the std write_all loop against arbitrary schedules, the budget sink for every failure position; correspondence with a faulty std::io::Write and a buffer-protecting allocator',
-   text='Kernel-checked: writeAll_contract (std write_all over any schedule of short writes / Interrupted / failures takes a prefix and succeeds only if it took everything), runSink_prefix (for every sink, schedule and chunking the accepted bytes are a prefix of the fault-free output), runSink_ok (success only if everything was accepted and flushed, with the exact count), split_ok (sinks that split or retry receive exactly the fault-free bytes), budget_run (failure after k accepted bytes, for every k and chunking: exactly the first k bytes, write error iff k < len or flush fails), slice_no_free (ownership ledger of the &[T] serializer). The run drives the real serializer through a faulty Write (failure at k, per-call caps, Interrupted, flush failure, BufWriter over /dev/full), compares result and accepted bytes with the model, checks the source afterwards, and serializes &[T] / Wrap<&[T]> while the global allocator protects the borrowed buffer and records any attempt to free it.',
+   text='Kernel-checked: writeAll_contract (std write_all over any schedule of short writes / Interrupted / failures takes a prefix and succeeds only if it took everything), runSink_prefix (for every sink, schedule and chunking the accepted bytes are a prefix of the fault-free output), runSink_ok (success only if everything was accepted and flushed, with the exact count), split_ok (sinks that split or retry receive exactly the fault-free bytes), budget_run (failure after k accepted bytes, for every k and chunking: exactly the first k bytes, write error iff k < len or flush fails), slice_no_free (ownership ledger of the &[T] serializer). The run drives the real serializer through a faulty Write (failure at k, per-call caps, Interrupted, flush failure, BufWriter over /dev/full), compares result and accepted bytes with the model, checks the source afterwards, and serializes &[T] / Wrap<&[T]> while the global allocator protects the borrowed buffer and records any attempt to free it. The same sinks under serialize_with_schema; eight kinds of write error, once or for good.',
    note='memory safety is represented by the ledger and measured by the protecting allocator (partial); sinks are assumed to obey the Write contract.',
    design='5/C13'),
  'C14': dict(
@@ -82,7 +82,7 @@ CLAIMED.update({
 CLAIMED.update({
  'C18': dict(
    technique='Lean 4 proof: the schema as a forest, tiling / alignment / in-stream invariants by mutual structural induction on the type universe and on the forest; rows compared with the real serialize_with_schema',
-   text='Kernel-checked: rows_preorder (the schema is the pre-order traversal of the forest), top_tile (top-level rows are contiguous from 0 to the end of the stream), children_tile (the children of every composite row tile it, at every depth), zero_rows_aligned (each zero-copy block starts at a multiple of its recorded alignment), rows_in_stream (every row lies within the stream, hence debug/to_csv index only inside it), padding_rows_zero (every PADDING node, at any depth, covers bytes of the stream that are all zero — for every type and well-typed value). The run compares the rows recorded by the real SchemaWriter with the model forest for every generated value, the bytes with the plain writer, and evaluates the invariants (incl. zero padding bytes, debug/to_csv not panicking) on the real rows.',
+   text='Kernel-checked: rows_preorder (the schema is the pre-order traversal of the forest), top_tile (top-level rows are contiguous from 0 to the end of the stream), children_tile (the children of every composite row tile it, at every depth), zero_rows_aligned (each zero-copy block starts at a multiple of its recorded alignment), rows_in_stream (every row lies within the stream, hence debug/to_csv index only inside it), padding_rows_zero (every PADDING node, at any depth, covers bytes of the stream that are all zero — for every type and well-typed value). The run compares the rows recorded by the real SchemaWriter with the model forest for every generated value, the bytes with the plain writer, and evaluates the invariants (incl. zero padding bytes, debug/to_csv not panicking) on the real rows. Op schemaat: serialize_on_field_write after k bytes already written, plain and through a SchemaWriter (same stream, rows with absolute offsets), against the model writing at position k.',
    note='that the recording writer hands the sink the same bytes as the plain writer is checked by the correspondence (one encoder in the model); field names are abstracted to path depth in the model.',
    design='5/C18'),
 })
@@ -103,7 +103,7 @@ CLAIMED.update({
 CLAIMED.update({
  'C08': dict(
    technique='Lean 4 proof: zero-extension irrelevance and agreement of all loaders (corollary of the ε-copy framing theorem with trailing bytes), region arithmetic, injectivity of the flag translation; correspondence on real store/load_full/load_mem/load_mmap/mmap with the region observed through the hook',
-   text='Kernel-checked: region_mem / region_mmap / region_map (the backing region is the file followed by zeros only up to the next multiple of 64 resp. 16; or the file itself), loaders_agree (ε-copy deserialization of the region of any loader describes the stored value, consumes exactly the file, and every borrowed part lies inside the file part of the region on its unit), load_full_agrees, flags_injective (decide over the 8 flag sets). The run stores real values, loads them with the four loaders and all 8 flag sets, compares the loaded structure (printed through Deref) with the model, reads back the region range (hook verif_backend_range) and its tail bytes, checks the flag translation (hook verif_mmap_flags), then moves, boxes, shares with 4 threads and sends the case to another thread and re-reads it; the load_full / load_mem cases are run again against the crate built without the mmap feature.',
+   text='Kernel-checked: region_mem / region_mmap / region_map (the backing region is the file followed by zeros only up to the next multiple of 64 resp. 16; or the file itself), loaders_agree (ε-copy deserialization of the region of any loader describes the stored value, consumes exactly the file, and every borrowed part lies inside the file part of the region on its unit), load_full_agrees, flags_injective (decide over the 8 flag sets). The run stores real values, loads them with the four loaders and all 8 flag sets, compares the loaded structure (printed through Deref) with the model, reads back the region range (hook verif_backend_range) and its tail bytes, checks the flag translation (hook verif_mmap_flags), then moves, boxes, shares with 4 threads and sends the case to another thread and re-reads it; the load_full / load_mem cases are run again against the crate built without the mmap feature. Op bigfile: values built by the harness from a size (file lengths 2^k + p up to 32 MiB, payloads of exactly 16 MiB), every loader; the answer of the model does not depend on the size.',
    note='mmap-rs, the kernel, std::alloc and File are assumed to deliver the file bytes at the stated alignment; thread interleavings are not modelled (the structure is immutable after construction: an argument, not a theorem); the loaders exist in two feature configurations (default, and std + derive without mmap): both are built and run; the alloc-only / no_std configurations of the crate do not compile at the pinned commit (129 errors) and have no file loaders.',
    design='5/C08'),
  'C09': dict(
@@ -132,7 +132,7 @@ CLAIMED.update({
 CLAIMED.update({
  'C17': dict(
    technique='Lean 4 proof: decision logic of both defence layers over every definition, instantiation and type (attribute check, ZeroCopy bound per field, the IS_ZERO_COPY constant by mutual structural induction: true implies plain old data), the guard of serialize_zero; tied by comparing the real constants of every generated type with the model and by compiling / running probe programs',
-   text='Kernel-checked: no_reprC_rejected, both_attrs_rejected, non_zero_field_rejected (a definition declared zero-copy with a field, in any variant, whose instantiated type is not ZeroCopy is refused at compile time; heap_types_not_zero lists vector, string, boxed slice, option, bound, control-flow, slice reference, deep structure), Ty.zcConst_plain (IS_ZERO_COPY = true implies that no vector, string, box, option or reference occurs at any depth), zcConst_false_of_field / zcConst_false_no_reprC / wrappers_propagate (a false constant is not hidden by structures, arrays, tuples, ranges), guard_sound / guard_panics (serialize_zero and serialize_slice_zero write only plain old data, and panic before padding, length and data otherwise), wrongly_declared_never_written (for every definition declared zero-copy: refused at compile time, or panic with nothing of the value written, or a C representation, only ZeroCopy fields and a pointer-free image). The run compares IS_ZERO_COPY and ZERO_COPY_MISMATCH of every generated type with the model, builds 15 wrongly declared definitions (each must be rejected for the ZeroCopy bound or by the macro), runs a hand-written lying type through 18 containers (each attempt must panic with no byte of the value written) and a valid control.',
+   text='Kernel-checked: no_reprC_rejected, both_attrs_rejected, non_zero_field_rejected (a definition declared zero-copy with a field, in any variant, whose instantiated type is not ZeroCopy is refused at compile time; heap_types_not_zero lists vector, string, boxed slice, option, bound, control-flow, slice reference, deep structure), Ty.zcConst_plain (IS_ZERO_COPY = true implies that no vector, string, box, option or reference occurs at any depth), zcConst_false_of_field / zcConst_false_no_reprC / wrappers_propagate (a false constant is not hidden by structures, arrays, tuples, ranges), guard_sound / guard_panics (serialize_zero and serialize_slice_zero write only plain old data, and panic before padding, length and data otherwise), wrongly_declared_never_written (for every definition declared zero-copy: refused at compile time, or panic with nothing of the value written, or a C representation, only ZeroCopy fields and a pointer-free image). The run compares IS_ZERO_COPY and ZERO_COPY_MISMATCH of every generated type with the model, builds 15 wrongly declared definitions (each must be rejected for the ZeroCopy bound or by the macro), runs a hand-written lying type through 18 containers (each attempt must panic with no byte of the value written) and a valid control. The lying-leaf probe is built and run a second time with --release (no debug assertions): the run-time layer must stand in every profile.',
    note='rustc is the implementation of the compile-time layer: the probes cover one definition per replacement listed by the property, not all programs (partial); hand-written impls that lie about IS_ZERO_COPY itself are outside the property; the fix e98eccd (tuples and ranges propagate the constant) is what makes wrappers_propagate true of the code.',
    design='5/C17'),
 })
